@@ -78,6 +78,7 @@ def run_check():
     try:
         mod = importlib.import_module("props.c12")
         ctx = vlib.Ctx("C12", "quick", int(os.environ.get("VERIF_SEED", "1")))
+        ctx.impl_only = True
         real_finish = ctx.finish
         ctx.finish = lambda *a, **k: real_finish(*a, **dict(k, write_evidence=False))
         try:
@@ -109,6 +110,9 @@ def main():
         results[name] = {0: "SURVIVED", 1: "caught", 2: "tool-error"}[rc]
         print("MUTANT %-28s %-10s (%s) %d signature(s) %s" % (name, results[name], what, nsig, sigs), flush=True)
     sync()
+    for f in os.listdir(os.path.join(vlib.VERIF, "replays")):
+        if f.startswith("C12_") and "--keep-replays" not in sys.argv:
+            os.remove(os.path.join(vlib.VERIF, "replays", f))
     ok = all(v == "caught" for v in results.values())
     print("C12 mutants:", "ALL CAUGHT" if ok else results)
     return 0 if ok else 1
